@@ -22,6 +22,16 @@ type singletonEntry struct {
 
 // sharedMutableType: a package-level variable of this type can carry state between executions
 func sharedMutableType(t types.Type) bool {
+	return sharedMutableTypeD(t, 0)
+}
+
+func sharedMutableTypeD(t types.Type, depth int) bool {
+	if depth > 4 {
+		return true
+	}
+	if n, ok := t.(*types.Named); ok && n.Obj().Pkg() != nil && (n.Obj().Pkg().Path() == "sync" || n.Obj().Pkg().Path() == "sync/atomic") {
+		return true // sync.Map, sync.Pool, … : process-wide caches
+	}
 	switch x := t.Underlying().(type) {
 	case *types.Pointer:
 		_, isStruct := x.Elem().Underlying().(*types.Struct)
@@ -31,8 +41,20 @@ func sharedMutableType(t types.Type) bool {
 		_, basicElem := x.Elem().Underlying().(*types.Basic)
 		return !basicElem
 	case *types.Interface:
-		_ = x
 		return !isErrorType(t) // sentinel errors are immutable values
+	case *types.Slice:
+		return sharedMutableTypeD(x.Elem(), depth+1)
+	case *types.Array:
+		return sharedMutableTypeD(x.Elem(), depth+1)
+	case *types.Struct:
+		for i := 0; i < x.NumFields(); i++ {
+			if sharedMutableTypeD(x.Field(i).Type(), depth+1) {
+				return true
+			}
+		}
+		return false
+	case *types.Chan:
+		return true
 	}
 	return false
 }
@@ -283,7 +305,7 @@ func checkC20(c *Ctx) {
 		"(C20.counter) every store to refCount is a function of its previous value (reservation discipline: ±k, or the capped target computed from it) - an assignment from len(childs) forgets head-room reserved for spawns still in flight, which is what lets the pool exceed --max-procs; " +
 		"(C20.cap) the scale-up batch is min(refCount+step, MaxProcs) − refCount and the replacement batch InitProcs − refCount is spawned only when positive; " +
 		"(C20.worker) in StartWorker every path from one Accept to the next passes the select that waits for the handler's completion, the timeout channel is created per request inside the loop, BUSY is reported before the handler starts, IDLE only on the completion branch, " +
-		"and the timeout branch reports STOPPED and cannot reach another Accept (it exits). NOT decided: the bounds themselves under real scheduling, recovery after crashes, pipe framing - these quantify over schedules and fault sequences (a different family of technique)."
+		"and the timeout branch reports STOPPED and cannot reach another Accept (it exits). (C20.env) cmd.Env = append(os.Environ(), own entries…): the configured timeout / pipe id win over inherited variables. NOT decided: the bounds themselves under real scheduling, recovery after crashes, pipe framing - these quantify over schedules and fault sequences (a different family of technique)."
 	R.Assumptions = []string{"pkg/server can only be type-checked for darwin/windows at the pinned commit; nothing of it is built or run here", "one goroutine runs maintainChildState"}
 	su := c.Server()
 	su.buildSSA()
@@ -410,6 +432,47 @@ func checkC20(c *Ctx) {
 		}
 		R.check(clamp && batch, "C20.cap", "maintainChildState:scale-up-batch", su.pos(f.Pos()), "batch = min(refCount+step, MaxProcs) − refCount", "the scale-up batch is not capped by MaxProcs relative to the reservation counter")
 		R.check(repl, "C20.cap", "maintainChildState:replacement", su.pos(f.Pos()), "replacements are spawned only while refCount < InitProcs", "replacement workers are spawned without the refCount < InitProcs test")
+	}
+
+	// ---- C20.env: the worker's timeout (and pipe id, child flag) reach it through the environment; os/exec keeps the
+	// LAST duplicate, so the master's own settings must come after the inherited environment
+	if sp := su.ssaFunc("pkg/server", "ZnPMServer.spawnProcess"); sp != nil {
+		okEnv, why := false, "no assignment of cmd.Env found"
+		isEnviron := func(v ssa.Value) bool {
+			call, ok := v.(*ssa.Call)
+			return ok && su.callName(call) == "os.Environ"
+		}
+		for _, in := range instrsOf(sp) {
+			st, ok := in.(*ssa.Store)
+			if !ok {
+				continue
+			}
+			fa, ok := st.Addr.(*ssa.FieldAddr)
+			if !ok || fieldAddrName(fa) != "Cmd.Env" {
+				continue
+			}
+			call, isCall := st.Val.(*ssa.Call)
+			bi, isBi := (ssa.Value)(nil), false
+			if isCall {
+				_, isBi = call.Call.Value.(*ssa.Builtin)
+				bi = call.Call.Value
+			}
+			if !isCall || !isBi || bi.Name() != "append" || len(call.Call.Args) != 2 {
+				okEnv, why = false, "cmd.Env is not built by append(os.Environ(), own entries…)"
+				continue
+			}
+			switch {
+			case flowsFrom(call.Call.Args[1], isEnviron):
+				okEnv, why = false, "the inherited environment is appended AFTER the master's own entries: a stale ZINC_EXEC_TIMEOUT / ZINC_PIPE_ID in the master's environment overrides --timeout / the pipe id"
+			case !flowsFrom(call.Call.Args[0], isEnviron):
+				okEnv, why = false, "cmd.Env does not start from os.Environ()"
+			default:
+				okEnv = true
+			}
+		}
+		R.check(okEnv, "C20.env", "spawnProcess:own-entries-last", su.pos(sp.Pos()), "cmd.Env = append(os.Environ(), own entries…): the configured timeout wins over an inherited variable", why)
+	} else {
+		R.lost("C20.env", "pkg/server.ZnPMServer.spawnProcess")
 	}
 
 	// ---- C20.worker
